@@ -453,3 +453,101 @@ Proof.
   destruct (in_rcs y) eqn:E; [|reflexivity].
   pose proof (count_pos_lookup in_rcs x y l Hl E). lia.
 Qed.
+
+(* ------------------------------------------------------------------------------------ *)
+(* the inductive invariant                                                               *)
+(* ------------------------------------------------------------------------------------ *)
+(* the writer has incremented tail / head and not yet compared it with cap(c.data) *)
+Definition tail_hi (th : abq_thr) : bool :=
+  match t_pc th with ECountInc | EIfTail | ETailZero => true | _ => false end.
+Definition head_hi (th : abq_thr) : bool :=
+  match t_pc th with DCountDec | DIfHead | DHeadZero => true | _ => false end.
+
+Record abq_inv (cap : Z) (c : abq_cfg) : Prop := {
+  i_cap : cap_of (q_data c) = cap;
+  i_nodup : NoDup (tids (q_thr c));
+  (* RWMutex: the flag / counter are exactly the threads inside the critical sections *)
+  i_w : count in_wcs (q_thr c) = (if q_w c then 1 else 0);
+  i_r : count in_rcs (q_thr c) = q_r c;
+  i_wr : q_w c = true -> q_r c = 0;
+  (* semaphores *)
+  i_enq : sem_ok cap (q_enq c);
+  i_deq : sem_ok cap (q_deq c);
+  i_enq_w : waiters_ok EPark (s_wait (q_enq c)) (q_thr c);
+  i_deq_w : waiters_ok DPark (s_wait (q_deq c)) (q_thr c);
+  (* the permit ledger *)
+  i_le : s_free (q_enq c) + count held_e (q_thr c) + abs_len c + count owes_e (q_thr c) = cap;
+  i_ld : s_free (q_deq c) + count held_d (q_thr c) + count owes_d (q_thr c) = abs_len c;
+  (* ring geometry: tail = head + count modulo cap, in the writer's current view *)
+  i_geo : (cap | q_tail c + count (pc_is ETailInc) (q_thr c) - abs_head c - abs_len c);
+  i_head : 0 <= q_head c < cap + count head_hi (q_thr c);
+  i_headz : 1 <= count (pc_is DHeadZero) (q_thr c) -> cap <= q_head c;
+  i_tail : 0 <= q_tail c < cap + count tail_hi (q_thr c);
+  i_tailz : 1 <= count (pc_is ETailZero) (q_thr c) -> cap <= q_tail c;
+  (* locals *)
+  i_thr : threads_ok (q_thr c) (q_data c) (q_head c) (q_count c);
+  (* history: everything written = everything read, then the contents, in order *)
+  i_log : g_in c = g_out c ++ abq_abs c
+}.
+
+Lemma abq_inv_init cap : 1 <= cap -> abq_inv cap (abq_init cap).
+Proof.
+  intros Hcap. unfold abq_init.
+  constructor; unfold abs_len, abs_head, abq_abs, s_free; cbn; try lia.
+  - apply cap_of_repeat. lia.
+  - constructor.
+  - constructor; cbn; try lia; try congruence; try constructor.
+  - constructor; cbn; try lia; try congruence; try constructor.
+  - intros x. unfold parked_at. cbn. split; [tauto|intros [y [E _]]; discriminate].
+  - intros x. unfold parked_at. cbn. split; [tauto|intros [y [E _]]; discriminate].
+  - exists 0. lia.
+  - intros t th H. discriminate.
+  - reflexivity.
+Qed.
+
+(* sub-predicates of "holds the write lock" *)
+Lemma sub_adj_e x : adj_e x = true -> in_wcs x = true.
+Proof. unfold adj_e, in_wcs. destruct (t_pc x); congruence. Qed.
+Lemma sub_adj_d x : adj_d x = true -> in_wcs x = true.
+Proof. unfold adj_d, in_wcs. destruct (t_pc x); congruence. Qed.
+Lemma sub_adj_h x : adj_h x = true -> in_wcs x = true.
+Proof. unfold adj_h, in_wcs. destruct (t_pc x); congruence. Qed.
+Lemma sub_owes_e x : owes_e x = true -> in_wcs x = true.
+Proof. unfold owes_e, in_wcs. destruct (t_pc x); congruence. Qed.
+Lemma sub_owes_d x : owes_d x = true -> in_wcs x = true.
+Proof. unfold owes_d, in_wcs. destruct (t_pc x); congruence. Qed.
+Lemma sub_tail_hi x : tail_hi x = true -> in_wcs x = true.
+Proof. unfold tail_hi, in_wcs. destruct (t_pc x); congruence. Qed.
+Lemma sub_head_hi x : head_hi x = true -> in_wcs x = true.
+Proof. unfold head_hi, in_wcs. destruct (t_pc x); congruence. Qed.
+Lemma sub_is_tailinc x : pc_is ETailInc x = true -> in_wcs x = true.
+Proof. unfold pc_is, in_wcs. destruct (t_pc x); cbn; congruence. Qed.
+Lemma sub_is_tailzero x : pc_is ETailZero x = true -> in_wcs x = true.
+Proof. unfold pc_is, in_wcs. destruct (t_pc x); cbn; congruence. Qed.
+Lemma sub_is_headzero x : pc_is DHeadZero x = true -> in_wcs x = true.
+Proof. unfold pc_is, in_wcs. destruct (t_pc x); cbn; congruence. Qed.
+
+(* with no writer inside, the abstract view is the plain one *)
+Lemma no_writer_view (l : thrs) :
+  count in_wcs l = 0 ->
+  count adj_e l = 0 /\ count adj_d l = 0 /\ count adj_h l = 0 /\ count owes_e l = 0 /\ count owes_d l = 0 /\
+  count tail_hi l = 0 /\ count head_hi l = 0 /\ count (pc_is ETailInc) l = 0 /\
+  count (pc_is ETailZero) l = 0 /\ count (pc_is DHeadZero) l = 0.
+Proof.
+  intros H. repeat split;
+    first [ exact (count_sub_zero _ _ l sub_adj_e H) | exact (count_sub_zero _ _ l sub_adj_d H)
+          | exact (count_sub_zero _ _ l sub_adj_h H) | exact (count_sub_zero _ _ l sub_owes_e H)
+          | exact (count_sub_zero _ _ l sub_owes_d H) | exact (count_sub_zero _ _ l sub_tail_hi H)
+          | exact (count_sub_zero _ _ l sub_head_hi H) | exact (count_sub_zero _ _ l sub_is_tailinc H)
+          | exact (count_sub_zero _ _ l sub_is_tailzero H) | exact (count_sub_zero _ _ l sub_is_headzero H) ].
+Qed.
+
+Lemma abs_len_bounds cap c : abq_inv cap c -> 0 <= abs_len c <= cap.
+Proof.
+  intros I. pose proof (i_le _ _ I). pose proof (i_ld _ _ I).
+  pose proof (so_cur _ _ (i_enq _ _ I)). pose proof (so_size _ _ (i_enq _ _ I)).
+  pose proof (so_cur _ _ (i_deq _ _ I)). pose proof (so_size _ _ (i_deq _ _ I)).
+  pose proof (count_nonneg _ held_e (q_thr c)). pose proof (count_nonneg _ owes_e (q_thr c)).
+  pose proof (count_nonneg _ held_d (q_thr c)). pose proof (count_nonneg _ owes_d (q_thr c)).
+  unfold s_free in *. lia.
+Qed.
